@@ -193,6 +193,7 @@ func corpusComments() []*modSpec {
 		mk("cmt-group-of-one", "", "type (\n\t// gomacro:SQL ADD UNIQUE(Name)\n\t// gomacro:SQL ADD CHECK (K = #[Kind.KA])\n\t// gomacro:SQL CREATE INDEX solo_name ON Solo (Name)\n\t// gomacro:SQL _SELECT KEY(Name, K)\n\t// gomacro:QUERY RenameSolo UPDATE Solo SET Name = $newName$ WHERE Id = $id$ OR K = $k$ ;\n\tSolo struct {\n\t\tId int64\n\t\tName string\n\t\tK Kind\n\t}\n)\n\n// not a directive of Other2\ntype (\n\tOther2 struct {\n\t\tId int64\n\t\tV int\n\t}\n)\n"),
 		mkWith("cmt-query-nullable-fields", "// gomacro:QUERY MoveLessons UPDATE Lesson SET Room = $room$ WHERE Teacher = $teacher$ AND Substitute = $sub$ AND Day = $day$ ;\ntype Lesson struct {\n\tId int64\n\tRoom string\n\tTeacher IdTeacher\n\tSubstitute sql.NullInt64\n\tDay OptDay\n}\n\ntype IdTeacher int64\n"),
 		mk("cmt-select-key-three-columns", "", "// gomacro:SQL _SELECT KEY(A, B, C)\n// gomacro:SQL _SELECT KEY ( A , B , C , D )\n// gomacro:SQL ADD UNIQUE(A, B, C)\ntype Item struct {\n\tId int64\n\tA int\n\tB string\n\tC int\n\tD bool\n}\n"),
+		mk("cmt-forward-table-reference", "", "// gomacro:SQL CREATE INDEX author_books ON Book (IdAuthor)\n// gomacro:SQL ADD CHECK(Name <> 'Book')\n// gomacro:QUERY TouchBooks UPDATE Book SET Title = 'Book of an Author' WHERE Id = $id$ ;\ntype Author struct {\n\tId int64\n\tName string\n}\n\n// gomacro:SQL ADD FOREIGN KEY (IdAuthor) REFERENCES Author ON DELETE CASCADE\n// gomacro:SQL CREATE INDEX book_shelf ON Shelf (Id)\ntype Book struct {\n\tId int64\n\tIdAuthor int64\n\tTitle string\n}\n\ntype Shelf struct {\n\tId int64\n\tLabel string\n}\n"),
 		mk("cmt-group-doc", "grouped-type-declaration-comments", "// gomacro:SQL ADD UNIQUE(Id)\ntype (\n\tH1 struct{ Id int64 }\n\tH2 struct{ Id int64 }\n)\n"),
 		mk("cmt-neighbour", "", "// gomacro:SQL ADD UNIQUE(A)\ntype First struct {\n\tId int64\n\tA int\n}\n\ntype Second struct {\n\tId int64\n\tA int\n}\n\n// gomacro:SQL ADD UNIQUE(Id, A)\n\ntype Third struct {\n\tId int64\n\tA int\n}\n"),
 		mk("cmt-enum-value-is-a-table-name", "", "type Role string\n\nconst (\n\tRoleAdmin Role = \"Admin\"\n\tRoleItem Role = \"Item of Admin\"\n)\n\ntype Admin struct{ Id int64 }\n\n// gomacro:SQL ADD CHECK(R = #[Role.RoleAdmin] OR R = #[Role.RoleItem])\n// gomacro:SQL ADD FOREIGN KEY (A) REFERENCES Admin\n// gomacro:QUERY Promote UPDATE Item SET R = #[Role.RoleAdmin] WHERE Id = $id$ ;\ntype Item struct {\n\tId int64\n\tR Role\n\tA int64\n}\n"),
